@@ -90,14 +90,26 @@ func buildProperty(ww *conversionVisitor, node *sourcewalk.PropertyNode) (*descr
 
 		ww.setJ5Ext(node.Source, fieldDesc.Options, "map", st.Map.Ext)
 
-		if st.Map.Rules != nil {
+		// The synthetic entry field can't carry options in proto source, and the
+		// validator doesn't look there: rules of the item type are the map's
+		// value rules, the same as for array items.
+		valueRules := proto.GetExtension(itemDesc.Options, validate.E_Field).(*validate.FieldConstraints)
+		if valueRules != nil {
+			proto.ClearExtension(itemDesc.Options, validate.E_Field)
+		}
+
+		if st.Map.Rules != nil || valueRules != nil {
+			mapRules := &validate.MapRules{
+				Values: valueRules,
+			}
+			if st.Map.Rules != nil {
+				mapRules.MinPairs = st.Map.Rules.MinPairs
+				mapRules.MaxPairs = st.Map.Rules.MaxPairs
+			}
 			ww.file.ensureImport(bufValidateImport)
 			proto.SetExtension(fieldDesc.Options, validate.E_Field, &validate.FieldConstraints{
 				Type: &validate.FieldConstraints_Map{
-					Map: &validate.MapRules{
-						MinPairs: st.Map.Rules.MinPairs,
-						MaxPairs: st.Map.Rules.MaxPairs,
-					},
+					Map: mapRules,
 				},
 			})
 		}
